@@ -165,7 +165,7 @@ def txDecision (atom : String → Bool) (dbErr : Option ErrV) : List String :=
 /-- gorm.go DB.AddError(e) with `db.Error = cur`: the value assigned to db.Error by the executed write
     (`db.Error = err` | `db.Error = fmt.Errorf("%v; %w", db.Error, err)`); a right-hand side the model does not know
     loses the error (`none`) -/
-def addErrorWith (writes : List CondCall) (atom : String → Bool) (cur : Option ErrV) (e : ErrV) : Option ErrV :=
+def hookAddErrorWith (writes : List CondCall) (atom : String → Bool) (cur : Option ErrV) (e : ErrV) : Option ErrV :=
   (callsUnder writes (errEnv atom cur (some e))).foldl (fun acc w =>
     if w == "db.Error = err" then some e
     else if w == "db.Error = fmt.Errorf(\"%v; %w\", db.Error, err)" then
@@ -173,7 +173,7 @@ def addErrorWith (writes : List CondCall) (atom : String → Bool) (cur : Option
     else if w == "err = errTranslator.Translate(err)" then acc   -- Config.TranslateError: dialect-specific, not modelled
     else none) cur
 
-def addError (atom : String → Bool) (cur : Option ErrV) (e : ErrV) : Option ErrV :=
-  addErrorWith Gen.addErrorWrites atom cur e
+def hookAddError (atom : String → Bool) (cur : Option ErrV) (e : ErrV) : Option ErrV :=
+  hookAddErrorWith Gen.addErrorWrites atom cur e
 
 end Gorm
